@@ -76,7 +76,7 @@ def _single_cases(tier):
     kinds += [["nullable", "enum_str", "enumnull"], ["nullable", "enum_int", "enumnull"]]
     kinds += [["array", ["array", k]] for k in atoms]
     # COUNTS: unions of ONE member (a one-member oneOf), alone and as array items; unions of three members
-    kinds += [["union", k] for k in atoms] + [["array", ["union", k]] for k in atoms]
+    kinds += [["union", k] for k in atoms if k != "null"] + [["array", ["union", k]] for k in atoms if k != "null"]      # (a union of null alone is the null type: C11 knows it)
     kinds += [["union", a, b, c] for a, b, c in (("date", "int", "model_ref"), ("model_ref", "date", "int"), ("int", "model_ref", "date"), ("enum_str", "uuid", "bool"), ("uuid", "enum_str", "null"))]
     if tier == "thorough":
         kinds += [["array", ["array", ["array", k]]] for k in ("date", "uuid", "model_ref", "enum_str", "int")]
